@@ -165,8 +165,25 @@ Fixpoint go {S : Type} (stepf : S -> op -> S * out) (ops : list op) (obs : list 
   | _, _ => vjoin v VBad
   end.
 
+(* live-worker case: ((impl n 0 ()) (started delivered cancelled both neither size)),
+   impl 2 = wheel, 3 = heap.  n one-shot timers with delay 0 are started on the REAL worker
+   goroutine with nobody reading Chan(); once the worker is stuck delivering, every id is
+   cancelled, then Chan() is drained.  The verdict only counts: no timer may be delivered
+   although its Cancel returned true (both), none may be neither delivered nor cancelled,
+   every started timer is accounted for, Size() ends at 0. *)
+Definition check_live (n : Z) (obs : list sx) : verdict :=
+  match obs with
+  | [SInt started; SInt delivered; SInt cancelled; SInt both; SInt neither; SInt size] =>
+      vjoin (check_that (both =? 0) (VPropFail 2))
+     (vjoin (check_that ((neither =? 0) && (started =? n) && (delivered + cancelled - both + neither =? started)) (VPropFail 1))
+            (check_that (size =? 0) (VPropFail 4)))
+  | _ => VBad
+  end.
+
 Definition check_case (c : sx) : verdict :=
   match c with
+  | SList [SList [SInt 2; SInt n; SInt _; SList []]; SList obs] => check_live n obs
+  | SList [SList [SInt 3; SInt n; SInt _; SList []]; SList obs] => check_live n obs
   | SList [SList [SInt impl; SInt cur0; SInt tt0; SList ops]; SList obs] =>
       match map_opt dec_op ops with
       | Some ops =>
